@@ -337,12 +337,164 @@ class LoopToComprehension(ast.NodeTransformer):
 
     visit_AsyncFunctionDef = visit_FunctionDef
 
+
+class ExtractHelper(ast.NodeTransformer):
+    """Every top-level `for`/`if`/`while`/`with` statement of a function body that (a) contains no return/break/continue/yield/global/nonlocal/nested def/lambda,
+    (b) binds no name that is read later in the function or is a parameter, is moved into a new module-level function `_xh<N>(<names it reads>)` and replaced by a call
+    (`await` when the block awaits).  Names it reads = locals/parameters of the function (module names are reached through the global scope)."""
+    def __init__(self):
+        self.new = []
+        self.k = 0
+
+    depth = 0
+
+    def _fn(self, node):
+        self.depth += 1
+        self.generic_visit(node)
+        self.depth -= 1
+        if self.depth > 0:      # nested function: its free names may belong to the enclosing function
+            return node
+        if any(isinstance(n, (ast.Yield, ast.YieldFrom)) for n in ast.walk(node)):
+            return node
+        params = params_of(node)
+        local = set(params)
+        for n in ast.walk(node):
+            if isinstance(n, ast.Name) and isinstance(n.ctx, (ast.Store, ast.Del)):
+                local.add(n.id)
+            elif isinstance(n, ast.ExceptHandler) and n.name:
+                local.add(n.name)
+            elif isinstance(n, (ast.Import, ast.ImportFrom)):
+                for al in n.names:
+                    local.add((al.asname or al.name).split(".")[0])
+            elif isinstance(n, (ast.FunctionDef, ast.AsyncFunctionDef, ast.ClassDef)) and n is not node:
+                local.add(n.name)
+        if any(isinstance(n, (ast.Global, ast.Nonlocal)) for n in ast.walk(node)):
+            return node
+        if any(isinstance(n, ast.Call) and isinstance(n.func, ast.Name) and n.func.id in UNSAFE_CALLS | {"super"} for n in ast.walk(node)):
+            return node
+        body = node.body
+        out = []
+        for i, s in enumerate(body):
+            ok = isinstance(s, (ast.For, ast.If, ast.While, ast.With)) and i > 0
+            if ok:
+                for n in ast.walk(s):
+                    if isinstance(n, (ast.Return, ast.Break, ast.Continue, ast.Yield, ast.YieldFrom, ast.FunctionDef, ast.AsyncFunctionDef, ast.Lambda, ast.ClassDef,
+                                      ast.Import, ast.ImportFrom, ast.NamedExpr, ast.Try, ast.AsyncFor, ast.AsyncWith, ast.ListComp, ast.SetComp, ast.DictComp, ast.GeneratorExp)):
+                        ok = False
+                        break
+            if ok and any(isinstance(n, ast.Attribute) and n.attr.startswith("__") and not n.attr.endswith("__") for n in ast.walk(s)):
+                ok = False   # private names are mangled per class
+            if ok:
+                stores = {n.id for n in ast.walk(s) if isinstance(n, ast.Name) and isinstance(n.ctx, (ast.Store, ast.Del))}
+                later = {n.id for r in body[i + 1:] for n in ast.walk(r) if isinstance(n, ast.Name)}
+                # names bound in the block must be private to it: not read later, not parameters, not bound before (an earlier value could be read after the block)
+                earlier = {n.id for r in body[:i] for n in ast.walk(r) if isinstance(n, ast.Name)}
+                if stores & (later | set(params) | earlier):
+                    ok = False
+                loads = []
+                for n in ast.walk(s):
+                    if isinstance(n, ast.Name) and isinstance(n.ctx, ast.Load) and n.id in local and n.id not in stores and n.id not in loads:
+                        loads.append(n.id)
+                # a name both read and bound inside the block (loop carried) was excluded above through `stores`; reading a block-private name before binding is not possible
+                if ok and len(loads) <= 8:
+                    self.k += 1
+                    name = "_xh%d" % self.k
+                    is_async = any(isinstance(n, ast.Await) for n in ast.walk(s))
+                    args = ast.arguments(posonlyargs=[], args=[ast.arg(arg=a) for a in loads], kwonlyargs=[], kw_defaults=[], defaults=[])
+                    cls = ast.AsyncFunctionDef if is_async else ast.FunctionDef
+                    self.new.append(cls(name=name, args=args, body=[s], decorator_list=[], lineno=0))
+                    call = ast.Call(func=ast.Name(id=name, ctx=ast.Load()), args=[ast.Name(id=a, ctx=ast.Load()) for a in loads], keywords=[])
+                    out.append(ast.Expr(value=ast.Await(value=call) if is_async else call))
+                    continue
+            out.append(s)
+        node.body = out
+        return node
+
+    visit_FunctionDef = _fn
+    visit_AsyncFunctionDef = _fn
+
+    def visit_Module(self, node):
+        self.generic_visit(node)
+        # in front of the first definition (module-level code may call functions while the module is imported)
+        idx = next((i for i, st in enumerate(node.body) if isinstance(st, (ast.FunctionDef, ast.AsyncFunctionDef, ast.ClassDef))), len(node.body))
+        node.body = node.body[:idx] + self.new + node.body[idx:]
+        return node
+
 T = {"rename-locals": RenameLocals, "swap-if": SwapIf, "merge-if": MergeIf, "ret-temp": RetTemp, "aug": Aug, "split-and": SplitAnd, "guard": GuardClause, "unguard": UnGuard, "upd2sub": UpdateToSubscript, "sub2upd": SubscriptToUpdate,
-     "isinst": IsinstanceTuple, "demorgan": DeMorgan, "reorder-defs": ReorderDefs, "hoist-arg": HoistArg, "loop2comp": LoopToComprehension}
+     "isinst": IsinstanceTuple, "demorgan": DeMorgan, "reorder-defs": ReorderDefs, "hoist-arg": HoistArg, "loop2comp": LoopToComprehension, "extract": ExtractHelper}
+
+
+def rename_private_functions(root, only=""):
+    """Package-wide: every private (`_x`, not dunder) module-level function and method gets the suffix `_rnf`, with all references (names, attributes, imports).
+    Names that also occur as a string constant, a keyword argument or a class/instance attribute that is not a method are left alone."""
+    files = sorted(pathlib.Path(root, "nemoguardrails").rglob("*.py"))
+    trees = {p: ast.parse(p.read_text()) for p in files}
+    defs, banned = set(), set()
+    for t in trees.values():
+        for n in ast.walk(t):
+            if isinstance(n, (ast.FunctionDef, ast.AsyncFunctionDef)) and n.name.startswith("_") and not n.name.startswith("__"):
+                defs.add(n.name)
+            elif isinstance(n, ast.Constant) and isinstance(n.value, str):
+                banned.add(n.value)
+                banned |= set(n.value.replace(".", " ").split())
+            elif isinstance(n, ast.keyword) and n.arg:
+                banned.add(n.arg)
+            elif isinstance(n, ast.arg):
+                banned.add(n.arg)
+            elif isinstance(n, (ast.Assign, ast.AnnAssign, ast.AugAssign)):
+                for tg in ([n.target] if not isinstance(n, ast.Assign) else n.targets):
+                    for x in ast.walk(tg):
+                        if isinstance(x, ast.Attribute):
+                            banned.add(x.attr)
+                        elif isinstance(x, ast.Name):
+                            banned.add(x.id)
+    # decorated functions (actions registered by name, lark callbacks found by getattr) keep their names; so do names used by the tests
+    for t in trees.values():
+        for n in ast.walk(t):
+            if isinstance(n, (ast.FunctionDef, ast.AsyncFunctionDef)) and n.decorator_list:
+                banned.add(n.name)
+            if isinstance(n, ast.ClassDef) and any("Transformer" in ast.unparse(b) or "Visitor" in ast.unparse(b) for b in n.bases):
+                for m in n.body:
+                    if isinstance(m, (ast.FunctionDef, ast.AsyncFunctionDef)):
+                        banned.add(m.name)
+    for p in pathlib.Path(root, "tests").rglob("*.py"):
+        try:
+            for n in ast.walk(ast.parse(p.read_text())):
+                if isinstance(n, ast.Name):
+                    banned.add(n.id)
+                elif isinstance(n, ast.Attribute):
+                    banned.add(n.attr)
+                elif isinstance(n, ast.alias):
+                    banned.add(n.name.split(".")[-1])
+                elif isinstance(n, ast.Constant) and isinstance(n.value, str):
+                    banned |= set(n.value.replace(".", " ").split())
+        except SyntaxError:
+            pass
+    todo = defs - banned
+    k = 0
+    for p, t in trees.items():
+        if only and only not in str(p):
+            pass
+        for n in ast.walk(t):
+            if isinstance(n, (ast.FunctionDef, ast.AsyncFunctionDef)) and n.name in todo:
+                n.name += "_rnf"; k += 1
+            elif isinstance(n, ast.Name) and n.id in todo:
+                n.id += "_rnf"
+            elif isinstance(n, ast.Attribute) and n.attr in todo:
+                n.attr += "_rnf"
+            elif isinstance(n, ast.alias) and n.name in todo:
+                n.name += "_rnf"
+        new = ast.unparse(t) + "\n"
+        compile(new, str(p), "exec")
+        p.write_text(new)
+    print("rename-funcs: %d definitions renamed (%d candidates)" % (k, len(todo)))
 
 if __name__ == "__main__":
     root, tname = sys.argv[1], sys.argv[2]
     only = sys.argv[3] if len(sys.argv) > 3 else ""
+    if tname == "rename-funcs":
+        rename_private_functions(root, only)
+        sys.exit(0)
     n = 0
     for p in sorted(pathlib.Path(root, "nemoguardrails").rglob("*.py")):
         if only and only not in str(p):
